@@ -1,4 +1,169 @@
-(* Properties/C17.v -- placeholder while the correspondence is being debugged *)
-From BV Require Import Lib.Tree17 Model.TreeMerge.
-Theorem C17_placeholder : True. Proof. exact I. Qed.
-Print Assumptions C17_placeholder.
+(* Properties/C17.v -- Tree merges obey the three-way merge laws.
+
+   Model: Model/TreeMerge.v (Merge3Merger per file id, on the kernels Gen.ThreeWay generated from
+   breezy/merge.py on every run).  [merge_tree tm lm unmod U B Ls O T] = (merged tree, cooked conflicts):
+     tm    any text merger (merge3 / weave / lca plans), NO hypothesis on it is needed;
+     lm    false = _entries3/_three_way, true = _entries_lca/_lca_multi_way (criss-cross merges);
+     unmod the is_unmodified test of _entries_lca (assumed to imply equal entries: [unmod_sound]);
+     U     the file ids in play; B Ls O T = BASE, LCA trees, OTHER, THIS.
+   [lcas_agree_at lm B Ls f]: three-way mode, or every LCA tree agrees with BASE on file id f.
+   Trees are functions from file ids to optional entries (parent id, name, kind + text/target + exec bit),
+   so "paths, kinds, contents and executable bits" are all part of the compared entries. *)
+From Coq Require Import List Bool Arith NArith.
+From BV Require Import Lib.Bytes Lib.PyPrim Lib.Tree17 Gen.ThreeWay Theory.ThreeWay Model.TreeMerge Theory.TreeMerge.
+Import ListNotations.
+Local Open Scope nat_scope.
+
+Section C17.
+Variable tm : bytes -> bytes -> bytes -> bytes * bool.
+Variable lm : bool.
+Variable unmod : nat -> bool.
+
+(* ---- the four laws, file id by file id (each needs its premise only at that id) ------------- *)
+
+(* OTHER = BASE at f: THIS's entry survives untouched and f contributes no conflict *)
+Theorem C17_other_eq_base : forall U B Ls O T f,
+  lcas_agree_at lm B Ls f -> O f = B f ->
+  fst (merge_tree tm lm unmod U B Ls O T) f = T f /\ cs_of tm lm unmod U B Ls O T f = [].
+Proof. exact (law_other_eq_base tm lm unmod). Qed.
+
+(* THIS = BASE at f: the result carries OTHER's entry (parent, name, kind, contents, exec; or its absence) *)
+Theorem C17_this_eq_base : forall U B Ls O T f,
+  lcas_agree_at lm B Ls f -> unmod_sound unmod Ls O -> T f = B f -> (In f U \/ O f = B f) ->
+  fst (merge_tree tm lm unmod U B Ls O T) f = O f /\ cs_of tm lm unmod U B Ls O T f = [].
+Proof. exact (law_this_eq_base tm lm unmod). Qed.
+
+(* both sides made the same change at f *)
+Theorem C17_identical_changes : forall U B Ls O T f,
+  lcas_agree_at lm B Ls f -> T f = O f ->
+  fst (merge_tree tm lm unmod U B Ls O T) f = T f /\ cs_of tm lm unmod U B Ls O T f = [].
+Proof. exact (law_identical tm lm unmod). Qed.
+
+(* ---- the four laws for whole trees ------------------------------------------------------------ *)
+
+Theorem C17_other_eq_base_tree : forall U B Ls O T,
+  (forall f, lcas_agree_at lm B Ls f) -> (forall f, O f = B f) ->
+  (forall f, fst (merge_tree tm lm unmod U B Ls O T) f = T f) /\
+  snd (merge_tree tm lm unmod U B Ls O T) = [].
+Proof. exact (tree_other_eq_base tm lm unmod). Qed.
+
+Theorem C17_this_eq_base_tree : forall U B Ls O T,
+  (forall f, lcas_agree_at lm B Ls f) -> unmod_sound unmod Ls O -> (forall f, T f = B f) ->
+  (forall f, O f <> B f -> In f U) ->
+  (forall f, fst (merge_tree tm lm unmod U B Ls O T) f = O f) /\
+  snd (merge_tree tm lm unmod U B Ls O T) = [].
+Proof. exact (tree_this_eq_base tm lm unmod). Qed.
+
+Theorem C17_identical_changes_tree : forall U B Ls O T,
+  (forall f, lcas_agree_at lm B Ls f) -> (forall f, T f = O f) ->
+  (forall f, fst (merge_tree tm lm unmod U B Ls O T) f = T f) /\
+  snd (merge_tree tm lm unmod U B Ls O T) = [].
+Proof. exact (tree_identical tm lm unmod). Qed.
+
+(* disjoint sets of changed files: the result is the union of both sides' changes, no conflict *)
+Theorem C17_disjoint_union : forall U B Ls O T,
+  (forall f, lcas_agree_at lm B Ls f) -> unmod_sound unmod Ls O ->
+  (forall f, T f = B f \/ O f = B f) ->
+  (forall f, O f <> B f -> In f U) ->
+  (forall f, fst (merge_tree tm lm unmod U B Ls O T) f = union_tree B O T f) /\
+  snd (merge_tree tm lm unmod U B Ls O T) = [].
+Proof. exact (tree_disjoint_union tm lm unmod). Qed.
+
+(* ---- disjoint changes inside ONE entry: each of parent, name, (kind, contents), exec bit changed by at
+        most one side; the merged entry takes, attribute by attribute, the changed value; no conflict ---- *)
+Theorem C17_disjoint_attributes : forall f thop ohtp changed be oe te ls,
+  lcas_agree lm (Some be) ls ->
+  (vpair (Some be) <> vpair (Some oe) -> changed = true) ->
+  (vname (Some te) = vname (Some be) \/ vname (Some oe) = vname (Some be)) ->
+  (vparent (Some te) = vparent (Some be) \/ vparent (Some oe) = vparent (Some be)) ->
+  (vpair (Some te) = vpair (Some be) \/ vpair (Some oe) = vpair (Some be)) ->
+  (vexec (Some te) = vexec (Some be) \/ vexec (Some oe) = vexec (Some be)) ->
+  exists r,
+    merge_entry tm lm f thop ohtp changed (Some be) ls (Some oe) (Some te) = (Some r, []) /\
+    e_name r = (if bytes_eqb (e_name be) (e_name oe) then e_name te else e_name oe) /\
+    e_parent r = (if Nat.eqb (e_parent be) (e_parent oe) then e_parent te else e_parent oe) /\
+    vpair (Some r) = (if opair_eqb (vpair (Some be)) (vpair (Some oe)) then vpair (Some te) else vpair (Some oe)) /\
+    (kind_of (e_body r) = KFile ->
+     exec_of (e_body r) = if Bool.eqb (exec_of (e_body be)) (exec_of (e_body oe))
+                          then exec_of (e_body te) else exec_of (e_body oe)).
+Proof. exact (merge_entry_attrs tm lm). Qed.
+
+End C17.
+
+(* ---- the LCA variant spelled out: criss-cross merge whose LCA trees all equal BASE -------------- *)
+Theorem C17_lca_variant_disjoint_union : forall tm unmod U B Ls O T,
+  Ls <> [] -> (forall L f, In L Ls -> L f = B f) -> unmod_sound unmod Ls O ->
+  (forall f, T f = B f \/ O f = B f) ->
+  (forall f, O f <> B f -> In f U) ->
+  (forall f, fst (merge_tree tm true unmod U B Ls O T) f = union_tree B O T f) /\
+  snd (merge_tree tm true unmod U B Ls O T) = [].
+Proof.
+  intros tm unmod U B Ls O T Hne Hl. apply C17_disjoint_union.
+  intros f. right. split; [exact Hne|]. intros L HL. apply Hl. exact HL.
+Qed.
+
+(* ---- the union of disjoint changes need not be a tree: the conflict-free union law cannot hold at the
+        file-system level for such triples (breezy then reports duplicate / missing parent / ... conflicts,
+        which the correspondence run observes as "fs-conflict").  Guarded version: C17_disjoint_union gives the
+        raw result = union; the oracle requires result = union and no conflict whenever the union is a tree. ---- *)
+
+Definition ex_file (p : nat) (n : bytes) (c : bytes) : entry := mkE p n (BFile c false).
+Definition ex_B : list (nat * entry) := [].
+Definition ex_T : list (nat * entry) := [(3, ex_file 0 [97%N] [113%N; 10%N])].
+Definition ex_O : list (nat * entry) := [(4, ex_file 0 [97%N] [113%N; 10%N])].
+Definition ex_tm (b t o : bytes) : bytes * bool := (t, true).
+
+Theorem C17_disjoint_union_is_tree_refuted :
+  exists U B O T,
+    wf_tree U B = true /\ wf_tree U O = true /\ wf_tree U T = true /\
+    (forall f, T f = B f \/ O f = B f) /\
+    wf_tree U (fst (merge_tree ex_tm false (fun _ => false) U B [] O T)) = false.
+Proof.
+  exists [3; 4], (alookup ex_B), (alookup ex_O), (alookup ex_T).
+  repeat split; try reflexivity.
+  intros f. destruct (Nat.eqb f 3) eqn:E.
+  - right. apply Nat.eqb_eq in E. subst. reflexivity.
+  - left. unfold ex_T, ex_B, alookup. rewrite (Nat.eqb_sym 3 f), E. reflexivity.
+Qed.
+
+(* ---- non-vacuity: concrete criss-cross and three-way instances meeting the hypotheses ----------- *)
+
+Definition ex2_B : list (nat * entry) :=
+  [(1, mkE 0 [100%N] BDir); (2, ex_file 1 [97%N] [49%N; 10%N]); (3, ex_file 0 [98%N] [50%N; 10%N])].
+(* THIS renames and chmods 2; OTHER rewrites 3, moves it into directory 1, adds symlink 4 *)
+Definition ex2_T : list (nat * entry) :=
+  [(1, mkE 0 [100%N] BDir); (2, mkE 1 [99%N] (BFile [49%N; 10%N] true)); (3, ex_file 0 [98%N] [50%N; 10%N])].
+Definition ex2_O : list (nat * entry) :=
+  [(1, mkE 0 [100%N] BDir); (2, ex_file 1 [97%N] [49%N; 10%N]); (3, ex_file 1 [98%N] [51%N; 10%N]);
+   (4, mkE 0 [108%N] (BLink [116%N]))].
+
+Example C17_nonvacuous :
+  (forall lm, let M := merge_tree ex_tm lm (fun _ => false) [1; 2; 3; 4]
+                                  (alookup ex2_B) [alookup ex2_B; alookup ex2_B] (alookup ex2_O) (alookup ex2_T) in
+     map (fst M) [1; 2; 3; 4] = map (union_tree (alookup ex2_B) (alookup ex2_O) (alookup ex2_T)) [1; 2; 3; 4]
+     /\ snd M = [] /\ wf_tree [1; 2; 3; 4] (fst M) = true)
+  /\ fst (merge_tree ex_tm false (fun _ => false) [1; 2; 3; 4] (alookup ex2_B) [] (alookup ex2_O) (alookup ex2_T)) 3
+     = Some (ex_file 1 [98%N] [51%N; 10%N])
+  /\ fst (merge_tree ex_tm false (fun _ => false) [1; 2; 3; 4] (alookup ex2_B) [] (alookup ex2_O) (alookup ex2_T)) 2
+     = Some (mkE 1 [99%N] (BFile [49%N; 10%N] true)).
+Proof. split; [intros []; vm_compute; repeat split|split; reflexivity]. Qed.
+
+(* one entry, attributes changed on different sides: THIS renames, OTHER edits the text and sets the exec bit *)
+Example C17_attributes_nonvacuous :
+  merge_entry ex_tm false 2 false false true
+              (Some (ex_file 1 [97%N] [49%N; 10%N])) []
+              (Some (mkE 1 [97%N] (BFile [50%N; 10%N] true)))
+              (Some (ex_file 1 [99%N] [49%N; 10%N]))
+  = (Some (mkE 1 [99%N] (BFile [50%N; 10%N] true)), []).
+Proof. reflexivity. Qed.
+
+Print Assumptions C17_other_eq_base.
+Print Assumptions C17_this_eq_base.
+Print Assumptions C17_identical_changes.
+Print Assumptions C17_other_eq_base_tree.
+Print Assumptions C17_this_eq_base_tree.
+Print Assumptions C17_identical_changes_tree.
+Print Assumptions C17_disjoint_union.
+Print Assumptions C17_disjoint_attributes.
+Print Assumptions C17_lca_variant_disjoint_union.
+Print Assumptions C17_disjoint_union_is_tree_refuted.
